@@ -371,7 +371,7 @@ func runC03(seed int64, n int, dir string, tier string) *Report {
 			}
 			rep.OracleEvals++
 			rep.Count(fmt.Sprintf("%s:written forest=%v", shortFmt(f), forest))
-			rep.NoteCase(s.name+string(f), len(d.NodeList.Nodes) >= 3 && len(d.NodeList.Edges) >= 2, map[string]any{"source": s.name, "format": string(f)})
+			rep.NoteInput(s.name+string(f), len(d.NodeList.Nodes) >= 3 && len(d.NodeList.Edges) >= 2, map[string]any{"source": s.name, "format": string(f)})
 			var msg string
 			if isCDX(f) {
 				msg = checkCDXOutput(d, buf.Bytes())
